@@ -157,6 +157,11 @@ func (s *JSONDB) ReadStatusToday(dagFile string) (*model.Status, error) {
 		}
 		lastErr = err
 	}
+	if errors.Is(lastErr, io.EOF) {
+		// Only files without a complete status (e.g. left by a killed
+		// writer): that is the same as having no status data.
+		return nil, persistence.ErrNoStatusData
+	}
 	return nil, lastErr
 }
 
